@@ -17,7 +17,8 @@ structure NoChanClose (sk : Skeleton) : Prop where
   close : sk.bcCloseClosesChans = false
 
 /-- Source facts: everything that removes an entry cancels its context and raises a closed signal
-    that the receive function listens to. -/
+    that the receive function listens to; `Receive` fails on a closed broadcaster, and only then
+    (it does not, e.g., refuse a caller context that is done already: M1's `Rcv.refusedCtx` never occurs). -/
 structure Wakes (sk : Skeleton) : Prop where
   freeCancels  : sk.bcFreeCancels = true
   closeCancels : sk.bcCloseCancelsAll = true
@@ -25,6 +26,7 @@ structure Wakes (sk : Skeleton) : Prop where
   closeSignals : sk.bcCloseClosesChans = true ∨ sk.bcCloseClosesDone = true
   closeSets    : sk.bcCloseSetsClosed = true
   refuses      : sk.bcReceiveRefusesWhenClosed = true
+  onlyClosed   : sk.bcReceiveErrorsOnlyClosed = true   -- … and `Receive` fails for no other reason (no refusal of a done context)
 
 structure NC (s : State) : Prop where
   nochan   : ∀ g e, s.entries g = some e → e.chanClosed = false
